@@ -320,8 +320,9 @@ def run_jobs(jobs, procs=16):
     return agg
 
 
-def cached_sweep(tier, features=("trace",), limit=None):
-    jobs = make_jobs(tier, features, limit)
+def cached_sweep(tier, features=("trace",), limit=None, jobs=None):
+    if jobs is None:
+        jobs = make_jobs(tier, features, limit)
     key = hashlib.sha256(json.dumps([common.tree_hash(), jobs], sort_keys=True).encode()).hexdigest()[:24]
     path = os.path.join(common.CACHE, "sweep-%s.json" % key)
     if os.path.exists(path) and os.environ.get("VERIF_NOCACHE") != "1":
